@@ -36,7 +36,7 @@ def run(ctx: Ctx) -> None:
         su = g.where(has_call("lifespan.wait_for_startup"))
         ctx.need(len(su) == 1, f"{w}: wait_for_startup call not found")
         awaited = all(isinstance(getattr(c, "_parent", None), ast.Await) for c in find_calls(ws, "lifespan.wait_for_startup"))
-        for name in ACCEPT_CALLS[mod] + ["config.create_sockets", "TCPServer", "UDPServer"]:
+        for name in ACCEPT_CALLS[mod] + ["config.create_sockets", "TCPServer", "UDPServer", "lifespan_state.copy"]:
             sites = g.where(_mentions(name))
             if name in ("TCPServer", "UDPServer"):
                 sites = [s for s in sites if g.node(s).kind != "stmt" or not isinstance(g.node(s).ast, (ast.FunctionDef, ast.AsyncFunctionDef))]
@@ -98,6 +98,14 @@ def run(ctx: Ctx) -> None:
             early = [c for c in find_calls(snd, "self.startup.set", "self.shutdown.set") if any(a[1] and ".failed'" in a[0] for a in guard_atoms(c))]
             ctx.check("C14.R2", f"{mod}:Lifespan.asgi_send", f"{stage}.failed does not release the wait itself", not early,
                       "asgi_send releases the startup/shutdown wait before raising: if the application awaits anything while the LifespanFailureError unwinds, wait_for_startup() returns while the lifespan task is still running, the failure check passes and the server starts serving after lifespan.startup.failed", early[0] if early else snd)
+        hl0 = repo.func(mod, "Lifespan.handle_lifespan")
+        sg = [n for n in walk_local(hl0) if isinstance(n, ast.Assign) and isinstance(n.value, ast.Call) and isinstance(n.value.func, ast.Attribute) and n.value.func.attr in ("subgroup", "split")]
+        okg = len(sg) == 1 and isinstance(sg[0].targets[0], ast.Name) and sg[0].value.func.attr == "subgroup" and "LifespanFailureError" in norm(sg[0].value)
+        if okg:
+            v_ = sg[0].targets[0].id
+            rz_ = [n for n in walk_local(hl0) if isinstance(n, ast.Raise) and norm(n.exc) == v_]
+            okg = len(rz_) == 1 and (f"{v_} is not None", True) in guard_atoms(rz_[0]) and any("isinstance(error, BaseExceptionGroup)" in a[0] and a[1] for a in guard_atoms(rz_[0]))
+        ctx.check("C14.R2", f"{mod}:Lifespan.handle_lifespan", "exception group: the LifespanFailureError/cancellation SUBGROUP is re-raised when present", okg, "a startup failure wrapped in an exception group (task group / nursery inside the application) would be treated as 'lifespan unsupported'", sg[0] if sg else hl0)
         hl = repo.func(mod, "Lifespan.handle_lifespan")
         trys = [n for n in walk_local(hl) if isinstance(n, ast.Try)]
         ok = len(trys) == 1 and trys[0].handlers
